@@ -210,6 +210,18 @@ impl GenerationPass for AvailableValuePass {
                 rule_known_values_to_stack(&mut out_memory_n, &node.reg_values_in());
                 // Writes to the zero register are discarded by the machine
                 out_reg_n -= Register::const_zero_set().iter();
+                // A slot known as "the value of register r" stops being that once r is overwritten
+                let overwritten = if node.calls_to().is_some() {
+                    node.kill_reg() | Register::return_addr_set()
+                } else {
+                    node.kill_reg()
+                };
+                let out_memory_n: AvailableValueMap<MemoryLocation> = out_memory_n
+                    .into_iter()
+                    .filter(|(_, value)| {
+                        !matches!(value, AvailableValue::RegisterWithScalar(reg, _) if overwritten.contains(reg))
+                    })
+                    .collect();
                 // TODO stack reset?
 
                 // If either of the outs changed, replace the old outs with the new outs
